@@ -364,6 +364,9 @@ func hostileAbvs(v *spec.Version) []string {
 		for _, l := range encodingTwins(a) {
 			add(l)
 		}
+		for _, l := range lenWraps(a)[:3] {
+			add(l)
+		}
 		if len(a) > 1 {
 			add(a[:len(a)-1])
 			add(a[1:])
@@ -386,6 +389,20 @@ func hostileAbvs(v *spec.Version) []string {
 	return out
 }
 
+// lenWraps returns strings that start with a and whose length is len(a) + 256k or len(a) + 65536: a length kept
+// in a uint8 / uint16 (or compared modulo a table size) sees them as long as a itself.
+func lenWraps(a string) []string {
+	var out []string
+	for _, n := range []int{256, 512, 65536} {
+		out = append(out, a+strings.Repeat("A", n), a+strings.Repeat("\x00", n), (strings.Repeat(a+"/", n/(len(a)+1)+2))[:len(a)+n])
+	}
+	// total length exactly 256 / 65536 (a truncated length of 0)
+	if len(a) < 256 {
+		out = append(out, a+strings.Repeat(" ", 256-len(a)), a+strings.Repeat("A", 65536-len(a)))
+	}
+	return out
+}
+
 func hostileValues() []string {
 	set := map[string]bool{}
 	add := func(s string) { set[s] = true }
@@ -402,6 +419,9 @@ func hostileValues() []string {
 			add(l)
 		}
 		for _, l := range encodingTwins(a) {
+			add(l)
+		}
+		for _, l := range lenWraps(a) {
 			add(l)
 		}
 		if len(a) > 1 {
